@@ -9,7 +9,8 @@ RULE = ("generated modules with forward, mutual, self and cross-function referen
         "aliases, phi/branch cycles, uses before definitions, same local names in different functions, metadata cycles, attachments) plus the corpus modules; model and "
         "implementation are compared on acceptance and on the ordered definition lists; the oracle walks the whole parsed object graph by reflection and demands that every "
         "reachable definition-like object is the listed definition, blocks/instructions/params belong to the function that uses them, and parents agree with containment; "
-        "non-trivial = distinct module with at least 3 references")
+        "the same walk on the SECOND of two parses of one text in the same process (corpus, generated modules, and twin modules with the same body in two functions for every "
+        "instruction kind): nothing that outlives a translation may hand out an object of another function or module; non-trivial = distinct module with at least 3 references")
 
 
 def gen(tier, rng, harness=None):
@@ -23,6 +24,14 @@ def gen(tier, rng, harness=None):
             lines.append("mod.outcome %s %s" % (hx(sk), hx(text)))
             lines.append("!mod.closure %s %s" % (hx(sk), hx(text)))
             lines.append("!mod.fix %s %s" % (hx(sk), hx(text)))
+    # state that outlives one translation: the same text parsed twice in this process (corpus, and twin modules: the same body in two functions, over named
+    # types, parameters and globals, for every instruction kind - vlib/twingen.py); every reference of the second module is a definition of the second module
+    from . import twingen
+    for t in modprops.corpus_texts():
+        lines.append("!mod.closure2 - %s" % hx(t))
+    for _, t in twingen.twin_texts():
+        lines.append("!mod.closure - %s" % hx(t))
+        lines.append("!mod.closure2 - %s" % hx(t))
     for m, text, sk in modprops.gen_modules(rng, n):
         lines.append("mod.outcome %s %s" % (hx(sk), hx(text)))
         lines.append("mod.lists %s %s" % (hx(sk), hx(text)))
@@ -33,6 +42,8 @@ def gen(tier, rng, harness=None):
         if rng.random() < 0.5:
             t2, _ = modgen.render(m, rng, shuffle=True)
             lines.append("!mod.closure %s %s" % (hx(sk), hx(t2)))
+        if rng.random() < 0.3:
+            lines.append("!mod.closure2 - %s" % hx(text))
     return lines
 
 
@@ -45,7 +56,7 @@ def nontrivial(ln, model_out):
 
 def search(ln, a, b, harness, driver):
     p = ln.split()
-    cands = ["!mod.closure %s %s" % (p[1], p[2]), "!mod.fix %s %s" % (p[1], p[2])]
+    cands = ["!mod.closure %s %s" % (p[1], p[2]), "!mod.fix %s %s" % (p[1], p[2]), "!mod.closure2 - %s" % p[2]]
     impl = C.run_lines([harness, "run"], cands)
     for c, x in zip(cands, impl):
         if x.split()[0] in ("FAIL", "panic"):
